@@ -19,6 +19,7 @@ type rootPerturb struct {
 	disk  *SimDisk // perturbed copy of the disk
 	cmp   func(a, b interface{}) (int, error)
 	failLoad string
+	cacheOK  bool // the stored node is untouched: the rejection must not depend on the node cache being cold
 }
 
 func (w *World) opRootCheck(op *Op) {
@@ -67,7 +68,7 @@ func (w *World) opRootCheck(op *Op) {
 	for _, f := range []string{"v9.9unknown", "V1MARSHALER", "binary"} {
 		r := base
 		r.NodeFormat = f
-		add(rootPerturb{name: "unknown-format", root: r})
+		add(rootPerturb{name: "unknown-format", root: r, cacheOK: true})
 	}
 	if top != "" {
 		// 2. top node lost / load error
@@ -149,11 +150,11 @@ func (w *World) opRootCheck(op *Op) {
 				}
 				// 5. loader KeyCompare reversed / constant
 				baseCmp := mast.DefaultKeyCompare(w.cfg.MarshalFn())
-				add(rootPerturb{name: "loader-keycompare-reversed", root: base, cmp: func(a, b interface{}) (int, error) {
+				add(rootPerturb{name: "loader-keycompare-reversed", root: base, cacheOK: true, cmp: func(a, b interface{}) (int, error) {
 					c, err := baseCmp(a, b)
 					return -c, err
 				}})
-				add(rootPerturb{name: "loader-keycompare-constant", root: base, cmp: func(a, b interface{}) (int, error) { return 0, nil }})
+				add(rootPerturb{name: "loader-keycompare-constant", root: base, cacheOK: true, cmp: func(a, b interface{}) (int, error) { return 0, nil }})
 			}
 			// 6. recorded height / branch factor under which some top key's layer < height
 			if n >= 1 {
@@ -179,7 +180,7 @@ func (w *World) opRootCheck(op *Op) {
 					if ml := minLayerAt(base.BranchFactor); ml >= 0 && ml < h {
 						r := base
 						r.Height = uint8(h)
-						add(rootPerturb{name: "recorded-height-above-key-layer", root: r})
+						add(rootPerturb{name: "recorded-height-above-key-layer", root: r, cacheOK: true})
 					}
 				}
 				if base.Height > 0 {
@@ -190,42 +191,60 @@ func (w *World) opRootCheck(op *Op) {
 						if ml := minLayerAt(bf); ml >= 0 && ml < int(base.Height) {
 							r := base
 							r.BranchFactor = bf
-							add(rootPerturb{name: "recorded-branch-factor-changes-layers", root: r})
+							add(rootPerturb{name: "recorded-branch-factor-changes-layers", root: r, cacheOK: true})
 						}
 					}
 				}
 			}
 		}
 	}
+	// a shared cache warmed by a correct load of the same root (as a long-running process has)
+	var warm mast.NodeCache
+	if w.cache != nil {
+		if _, r := w.loadRoot(&base, v.disk, asNodeCache(w.cache), src.Snapshot(src.prefix)); !r.bad() {
+			warm = asNodeCache(w.cache)
+		}
+	}
 	for _, p := range ps {
-		w.st.OracleEvals++
-		w.st.Probes["perturb-"+firstSeg(p.name)]++
-		cb := w.cb
-		if p.cmp != nil {
-			cb = &Callbacks{KeyCompare: p.cmp}
-			if w.cb != nil {
-				cb.Marshal, cb.Unmarshal = w.cb.Marshal, w.cb.Unmarshal
+		caches := []mast.NodeCache{nil}
+		if p.cacheOK && warm != nil {
+			caches = append(caches, warm)
+		}
+		for ci, cache := range caches {
+			how := "cold"
+			if ci == 1 {
+				how = "warm-cache"
+				w.st.Probes["perturb-with-warm-cache"]++
 			}
-		}
-		if p.failLoad != "" {
-			p.disk.BeginCall()
-			p.disk.FailLoadAt, p.disk.FailLoadKind = 1, p.failLoad
-			w.st.Faults["load-"+p.failLoad]++
-		}
-		var m *mast.Mast
-		root := p.root
-		r := guard(func() error {
-			var err error
-			m, err = root.LoadMast(ctx, w.cfg.RemoteConfig(w.kd, w.vd, p.disk, nil, cb))
-			return err
-		})
-		if r.panicked != nil {
-			w.failFor("C19", p.name+"/panics/"+fm, "LoadMast of a root with %s panicked instead of returning an error: %v", p.name, r.panicked)
-			return
-		}
-		if r.err == nil {
-			w.failFor("C19", p.name+"/accepted/"+fm, "LoadMast of a root with %s returned a tree (size %d) and no error", p.name, m.Size())
-			return
+			w.st.OracleEvals++
+			w.st.Probes["perturb-"+firstSeg(p.name)]++
+			cb := w.cb
+			if p.cmp != nil {
+				cb = &Callbacks{KeyCompare: p.cmp}
+				if w.cb != nil {
+					cb.Marshal, cb.Unmarshal = w.cb.Marshal, w.cb.Unmarshal
+				}
+			}
+			if p.failLoad != "" {
+				p.disk.BeginCall()
+				p.disk.FailLoadAt, p.disk.FailLoadKind = 1, p.failLoad
+				w.st.Faults["load-"+p.failLoad]++
+			}
+			var m *mast.Mast
+			root := p.root
+			r := guard(func() error {
+				var err error
+				m, err = root.LoadMast(ctx, w.cfg.RemoteConfig(w.kd, w.vd, p.disk, cache, cb))
+				return err
+			})
+			if r.panicked != nil {
+				w.failFor("C19", p.name+"/panics/"+fm+"/"+how, "LoadMast (%s) of a root with %s panicked instead of returning an error: %v", how, p.name, r.panicked)
+				return
+			}
+			if r.err == nil {
+				w.failFor("C19", p.name+"/accepted/"+fm+"/"+how, "LoadMast (%s) of a root with %s returned a tree (size %d) and no error", how, p.name, m.Size())
+				return
+			}
 		}
 	}
 	w.st.Probes["rootcheck"]++
